@@ -358,6 +358,10 @@ class BlePairing(AbstractPairing):
 
     def _update_cached_state_num(self, state_num: int) -> None:
         """Update the cached state number which is restored between restarts."""
+        if not self._accessories_state:
+            # Nothing cached yet (pairing loaded without accessories state); the
+            # state number is cached once the accessories have been populated.
+            return
         old_state_num = self._accessories_state.state_num
         self._accessories_state.state_num = state_num
         if old_state_num != state_num:
